@@ -1,3 +1,92 @@
 import KsiVerif.Util.DriverMain
-open KsiVerif
-def main : IO Unit := runDriver (fun i _ => "skip no-model-yet " ++ i)
+import KsiVerif.Util.VerifyDrv
+import KsiVerif.Model.Anchor
+/-! Model driver for C04 — protocol in harness/exec_c04.c; the words after `|` are the generator's own facts. -/
+open KsiVerif KsiVerif.Template KsiVerif.Verify KsiVerif.Policy KsiVerif.VerifyDrv KsiVerif.Anchor KsiVerif.PubFile
+
+def hexList (s : String) : List Bytes := if s == "-" then [] else (s.splitOn ",").filterMap ofHex
+def cfgOf (good : String) : Cfg := let gs := hexList good; { derOK := fun b => gs.contains b }
+
+def policyNamed (n : String) : Option PolicyRules :=
+  if n == "internal" then some Gen.policy_internal else if n == "calendar" then some Gen.policy_calendar
+  else if n == "key" then some Gen.policy_key else if n == "pubfile" then some Gen.policy_pubfile
+  else if n == "userpub" then some Gen.policy_userpub else if n == "general" then some Gen.policy_general else none
+
+/-- `receiveCalendarHashChain` on the reply octets: authentication (C06), status, request id, the chain -/
+def fetchOf (replyWord : String) (ver : Nat) (key : Bytes) : Except Nat (Option CalChain) :=
+  if replyWord == "none" then .error 0x201
+  else match ofHex replyWord with
+    | none => .error 0x201
+    | some reply =>
+      match PduMac.deliver Hreal cfg .ext ver none key reply with
+      | .error e => .error e
+      | .ok pdu =>
+        let root := PduMac.rootTagOf reply
+        let tn := if root = 0x300 then "KSI_ExtendResp" else "KSI_ExtendResp_v2"
+        match PduMac.fieldOf cfg.tabs (PduMac.pduTable .ext root) (if root = 0x300 then 0x302 else 0x02) pdu with
+        | some (.obj fs) =>
+          match vInt (fld cfg.tabs tn 0x04 fs) with
+          | some st => if st != 0 then .error (PduMac.convExt st)
+            else if vInt (fld cfg.tabs tn 0x01 fs) != some 1 then .error St.INVALID_ARGUMENT
+            else .ok ((fld cfg.tabs tn 0x802 fs).bind (calOf cfg.tabs))
+          | none => if vInt (fld cfg.tabs tn 0x01 fs) != some 1 then .error St.INVALID_ARGUMENT
+            else .ok ((fld cfg.tabs tn 0x802 fs).bind (calOf cfg.tabs))
+        | _ => .error St.INVALID_ARGUMENT
+
+def userPubOf (w : String) : Option PubData :=
+  match w.splitOn ":" with
+  | [t, im] => match t.toNat?, ofHex im with | some tt, some b => some ⟨tt, b⟩ | _, _ => none
+  | _ => none
+
+def certIdOf (vs : List (Nat × Val)) : Option Bytes :=
+  match fld cfg.tabs "KSI_Signature" 0x805 vs with
+  | some (.obj fs) => match fld cfg.tabs "KSI_CalendarAuthRec" 0x0b fs with
+    | some (.obj sd) => vBytes (fld cfg.tabs "KSI_CalAuthRecPKISignedData" 0x03 sd)
+    | _ => none
+  | _ => none
+
+def isFetch (id : Nat) : Bool := [28, 29, 38, 58].contains id
+
+def handle (inp out : String) : String :=
+  match words inp with
+  | "a" :: pol :: sigHex :: up :: ext :: ver :: keyHex :: replyW :: pfW :: _bar :: good :: win :: sigok :: rest =>
+    let label := rest.headD "-"
+    let v := (words out).headD "?"
+    -- the property on the implementation's output
+    let viol : Option String :=
+      if label == "ok" then (if v == "V0:0:0" then none else some s!"bound-signature-not-OK-{v}")
+      else if v == "V0:0:0" then some s!"reported-OK-although-{label}"
+      else if label.startsWith "fail:" then (if v == s!"V0:2:{(label.drop 5)}" then none else some s!"{label}-reported-as-{v}")
+      else if label.startsWith "na" && v.startsWith "V0:2:" then some s!"inconclusive-case-{label}-reported-as-FAIL-{v}"
+      else none
+    match viol with
+    | some why => s!"specfail a:{pol}:{label} {why}"
+    | none =>
+    match policyNamed pol, ofHex sigHex, ofHex keyHex, ver.toNat? with
+    | some p, some raw, some key, some vr =>
+      match parseSignature cfg raw with
+      | .error e => let ms := s!"P{e}"; if ms == out then s!"ok a:{pol}:P" else s!"diff a:{pol}:P model={ms}"
+      | .ok vs =>
+        let s := Sig.ofVals cfg.tabs vs
+        let c2 := cfgOf good
+        let pubfile : Except Nat PubFile := if pfW == "-" then .error 0x201 else match ofHex pfW with
+          | some pr => (match parsePubFile c2 pr with | .ok (pv, _) => .ok (PubFile.ofVals c2.tabs pv) | .error e => .error e)
+          | none => .error 0x201
+        let (nb, na) := match (win.drop 4).toString.splitOn ":" with
+          | [a, b] => (a.toNat?.getD 0, b.toNat?.getD 0)
+          | _ => (0, 0)
+        let f := fetchOf replyW vr key
+        let w : World := { userPub := userPubOf up, extendingAllowed := ext == "1", fetch := fun _ _ => f, pubfile := pubfile,
+                           certWindow := fun _ => (nb, na), rawSigOK := fun _ _ _ _ => sigok == "sig=1",
+                           authSig := (certIdOf vs).map fun cid => (cid, [], [], []) }
+        let mv := verifyIn Hreal p s {} w
+        let (ms, _) := verdictStr {} mv
+        let fetches := (mv.trace.filter isFetch).length
+        if fetches > 1 then s!"ok a:{pol}:{label}:{v}:several-fetches-not-compared"
+        else if ms == v then s!"ok a:{pol}:{label}:{v}"
+        else if hasTie s && (":".intercalate ((ms.splitOn ":").take 2)) == (":".intercalate ((v.splitOn ":").take 2)) then s!"ok a:{pol}:{label}:tie"
+        else s!"diff a:{pol}:{label}:{v} model={ms}"
+    | _, _, _, _ => "skip bad-args"
+  | _ => "skip unknown-op"
+
+def main : IO Unit := runDriver handle
